@@ -33,6 +33,13 @@ pub struct Case {
     /// its score distribution built): whatever an object memoises must not leak into its mirror image
     #[serde(default)]
     pub used_before: bool,
+    /// base of the logarithm of the count -> frequency -> weight -> score route (`to_scoring_with_base`)
+    #[serde(default = "base_two")]
+    pub base: Fl,
+}
+
+fn base_two() -> Fl {
+    Fl(2.0)
 }
 
 pub struct RevComp;
@@ -137,7 +144,7 @@ impl Sub for RevComp {
         "revcomp"
     }
     fn rule(&self) -> &'static str {
-        "DNA count matrix (width 0..30, any content incl. wildcard counts) x strand-symmetric pseudocounts and background x arbitrary scoring matrix (finite / -inf cells, finite wildcard column) x DNA sequence (L 0..300); (i) rc(rc(X)) == X exactly and rc(X) == the mirrored model for count, frequency, weight and scoring matrices; (ii) rc commutes with to_freq / to_weight / to_scoring (tol 1e-5); (iii) min_score / max_score of rc(pssm) equal those of pssm; (iv) score_rc[L-M-i] on rc(seq) == score[i] on seq within the summation bound, through the generic scorer and the dispatcher forced to an arm; (v) in half of the cases the forward object is first discretised / scanned / given a score distribution, and rc(pssm).to_discrete(), Scanner hits and Scanner::max over rc(pssm) must equal those of an equal, freshly built matrix; non-trivial = M >= 2 and rc(X) != X"
+        "DNA count matrix (width 0..30, any content incl. wildcard counts) x strand-symmetric pseudocounts and background x arbitrary scoring matrix (finite / -inf cells, finite wildcard column) x DNA sequence (L 0..300); (i) rc(rc(X)) == X exactly and rc(X) == the mirrored model for count, frequency, weight and scoring matrices; (ii) rc commutes with to_freq / to_weight / to_scoring (tol 1e-5), and for the scores in a logarithm base from {2, 10, e, 3.7, 1.5..20}: rc(rc(s)) == s, WeightMatrix::from(rc(s)) == rc(WeightMatrix::from(s)) cell by cell, rc(s).information_content() == s.information_content() (1e-4 of the summed magnitudes), and rc(s) == the scores of the mirrored weights as whole objects wherever their cells agree bit for bit; (iii) min_score / max_score of rc(pssm) equal those of pssm; (iv) score_rc[L-M-i] on rc(seq) == score[i] on seq within the summation bound, through the generic scorer and the dispatcher forced to an arm; (v) in half of the cases the forward object is first discretised / scanned / given a score distribution, and rc(pssm).to_discrete(), Scanner hits and Scanner::max over rc(pssm) must equal those of an equal, freshly built matrix; non-trivial = M >= 2 and rc(X) != X"
     }
     fn cases(&self, tier: Tier) -> u64 {
         tier.pick(60_000, 1_500_000)
@@ -151,8 +158,9 @@ impl Sub for RevComp {
             seq_strategy(5, (0usize..=300).boxed()),
             arm_strategy(),
             any::<bool>(),
+            prop_oneof![2 => Just(2.0f32), 2 => Just(10.0f32), 1 => Just(std::f32::consts::E), 1 => Just(3.7f32), 1 => 1.5f32..20.0],
         )
-            .prop_map(|(counts, p, bg, mat, seq, arm, used_before)| Case { counts, pseudo: (Fl(p.0), Fl(p.1), Fl(p.2)), bg, mat, seq, arm, used_before })
+            .prop_map(|(counts, p, bg, mat, seq, arm, used_before, base)| Case { counts, pseudo: (Fl(p.0), Fl(p.1), Fl(p.2)), bg, mat, seq, arm, used_before, base: Fl(base) })
             .boxed()
     }
     fn check(&self, case: &Case, _cx: &Cx) -> Verdict {
@@ -224,6 +232,54 @@ impl Sub for RevComp {
                             ));
                         }
                     }
+                }
+            }
+            // ---- the same route in another logarithm base: everything a scoring matrix carries along must
+            // follow it through the mirror image
+            let base = case.base.0;
+            info.class_if(base != 2.0, "log-base!=2");
+            let sb = w.to_scoring_with_base(base);
+            let sbrc = sb.reverse_complement();
+            let sb2 = w2.to_scoring_with_base(base);
+            let has_nan = |x: &ScoringMatrix<Dna>| (0..m).any(|i| x.matrix()[i].iter().any(|v| v.is_nan()));
+            if !has_nan(&sb) {
+                info.comparisons += 3;
+                if sbrc.reverse_complement() != sb {
+                    return Verdict::Fail(Failure::new("scoring:involution", format!("rc(rc(s)) != s for s = weights.to_scoring_with_base({})", base)));
+                }
+                // rc(s) against the scores of the reverse-complemented weights, as whole objects where the cells agree
+                let same_cells = (0..m).all(|i| (0..5).all(|j| sbrc.matrix()[i][j].to_bits() == sb2.matrix()[i][j].to_bits()));
+                if same_cells && sbrc.background().frequencies() == sb2.background().frequencies() && sbrc != sb2 {
+                    return Verdict::Fail(Failure::new(
+                        "scoring:commute",
+                        format!("base {}: rc(weights.to_scoring_with_base(b)) and rc(weights).to_scoring_with_base(b) have the same cells and background but compare unequal", base),
+                    ));
+                }
+                // back to weights: converting the mirror image == mirroring the conversion, cell by cell (same function of the same numbers)
+                let back_of_rc = lightmotif::pwm::WeightMatrix::<Dna>::from(sbrc.clone());
+                let rc_of_back = lightmotif::pwm::WeightMatrix::<Dna>::from(sb.clone()).reverse_complement();
+                for i in 0..m {
+                    for j in 0..5 {
+                        let (a, b) = (back_of_rc.matrix()[i][j], rc_of_back.matrix()[i][j]);
+                        if a.to_bits() != b.to_bits() && !(a.is_nan() && b.is_nan()) {
+                            return Verdict::Fail(Failure::new(
+                                "weight-from-scoring:commute",
+                                format!("base {} row {} symbol {}: WeightMatrix::from(rc(s)) = {} but rc(WeightMatrix::from(s)) = {}", base, i, j, a, b),
+                            ));
+                        }
+                    }
+                }
+                // the information content is a sum over the cells, each weighted by the (strand-symmetric) background
+                let (ia, ib) = (sbrc.information_content() as f64, sb.information_content() as f64);
+                let bgf = sb.background().frequencies().to_vec();
+                let mass: f64 = (0..m)
+                    .map(|i| (0..5).map(|j| { let x = sb.matrix()[i][j] as f64; if bgf[j] == 0.0 || !x.is_finite() { 0.0 } else { (2f64.powf(x) * bgf[j] as f64 * x).abs() } }).sum::<f64>())
+                    .sum();
+                if ia.is_finite() && ib.is_finite() && mass.is_finite() && (ia - ib).abs() > 1e-4 * (1.0 + mass) {
+                    return Verdict::Fail(Failure::new(
+                        "scoring:information-content",
+                        format!("base {}: rc(s).information_content() = {} but s.information_content() = {}", base, ia, ib),
+                    ));
                 }
             }
         } else {
